@@ -47,12 +47,15 @@ theorem bytesLt_trans : ∀ (a b c : List UInt8),
             rw [if_neg (by omega), if_neg (by omega)]
             exact ih h1 h2
 
-theorem bytesLt_asymm (a b : List UInt8) (h : bytesLt a b = true) : bytesLt b a = false := by
+-- (in `Mel.RestartL`: the name `bytesLt_asymm` also occurs in Lemmas/Swap.lean)
+theorem RestartL.bytesLt_asymm (a b : List UInt8) (h : bytesLt a b = true) : bytesLt b a = false := by
   cases hba : bytesLt b a with
   | false => rfl
   | true =>
     have := bytesLt_trans a b a h hba
     rw [bytesLt_irrefl] at this; cases this
+
+open RestartL
 
 theorem bytesLt_total : ∀ (a b : List UInt8), bytesLt a b = false → bytesLt b a = false → a = b
   | [], [], _, _ => rfl
